@@ -124,6 +124,7 @@ func cmdCheck(args []string) {
 			fatal(err)
 		}
 		json.Unmarshal(d, &rf)
+		rp.RWInstrument = strings.Contains(rf.Key, "recursive read lock")
 		res := rp.Run(rf.Harness, rf.Nondet, *replayOnly)
 		fmt.Print(res.Output)
 		if res.Err != nil {
@@ -188,7 +189,7 @@ func cmdCheck(args []string) {
 		if fn == nil {
 			fatal(fmt.Errorf("no such harness entry %s", es.Entry))
 		}
-		cfg := &gosym.Config{Workers: *workers, MaxSteps: es.MaxSteps, MaxPaths: es.MaxPaths, SolverMs: 10000, Seed: seed, Samples: 4, OrderSites: es.OrderSites, Tier: *tier, RecursiveRLock: false}
+		cfg := &gosym.Config{Workers: *workers, MaxSteps: es.MaxSteps, MaxPaths: es.MaxPaths, SolverMs: 10000, Seed: seed, Samples: 4, OrderSites: es.OrderSites, Tier: *tier, RecursiveRLock: os.Getenv("GOSYM_RRLOCK") != "0"}
 		if cfg.MaxSteps == 0 {
 			cfg.MaxSteps = 3000000
 		}
@@ -285,6 +286,9 @@ func cmdCheck(args []string) {
 		os.WriteFile(rpath, b, 0o644)
 		confirmed := false
 		detail := ""
+		// a recursive read lock only blocks when a writer arrives in between: the native run confirms it with an
+		// instrumented RWMutex (verifrt.RWMutex) instead of waiting for that writer
+		rp.RWInstrument = strings.Contains(f.Key, "recursive read lock")
 		if *noReplay {
 			confirmed = true
 		} else if f.Kind == "deadlock" || f.Kind == "lock" {
